@@ -235,17 +235,35 @@ func ruleUnionGuard(ctx *Ctx, rule string, fn string, fieldCalls []string) {
 			break
 		}
 	}
-	isPass := func(p *ssa.BasicBlock, k int) bool {
+	// isPass: the edge k out of block p establishes dv == X. cut: the edge cannot
+	// be taken at all when p was entered from pred (the condition is a phi — the
+	// value of "a && b" — that is a constant on that entry). A condition that is
+	// such a phi is judged by the value it has on the entry edge.
+	edge := func(p, pred *ssa.BasicBlock, k int) (pass, cut bool) {
 		ifi, ok := p.Instrs[len(p.Instrs)-1].(*ssa.If)
 		if !ok {
-			return false
+			return false, false
 		}
-		for _, at := range ssaq.Atoms([]ssaq.Guard{{Cond: ifi.Cond, True: k == 0}}) {
-			if at.Op == token.EQL && (at.X == ssa.Value(dv) || at.Y == ssa.Value(dv)) {
-				return true
+		cond := ifi.Cond
+		if phi, isPhi := cond.(*ssa.Phi); isPhi && phi.Block() == p && pred != nil {
+			for i, pp := range p.Preds {
+				if pp == pred {
+					cond = phi.Edges[i]
+				}
+			}
+			if c, isConst := cond.(*ssa.Const); isConst && c.Value != nil {
+				if (c.Value.String() == "true") != (k == 0) {
+					return false, true
+				}
+				return false, false
 			}
 		}
-		return false
+		for _, at := range ssaq.Atoms([]ssaq.Guard{{Cond: cond, True: k == 0}}) {
+			if at.Op == token.EQL && (at.X == ssa.Value(dv) || at.Y == ssa.Value(dv)) {
+				return true, false
+			}
+		}
+		return false, false
 	}
 	isField := func(b *ssa.BasicBlock) string {
 		for _, in := range b.Instrs {
@@ -258,22 +276,25 @@ func ruleUnionGuard(ctx *Ctx, rule string, fn string, fieldCalls []string) {
 		}
 		return ""
 	}
-	seen := map[*ssa.BasicBlock]bool{dv.Block(): true}
-	stack := []*ssa.BasicBlock{dv.Block()}
+	type state struct{ b, pred *ssa.BasicBlock }
+	seen := map[state]bool{{dv.Block(), nil}: true}
+	stack := []state{{dv.Block(), nil}}
 	bad := ""
 	for len(stack) > 0 && bad == "" {
-		b := stack[len(stack)-1]
+		st := stack[len(stack)-1]
 		stack = stack[:len(stack)-1]
+		b := st.b
 		for k, s := range b.Succs {
-			if isPass(b, k) || s == header || seen[s] {
+			pass, cut := edge(b, st.pred, k)
+			if pass || cut || s == header || seen[state{s, b}] {
 				continue
 			}
-			seen[s] = true
+			seen[state{s, b}] = true
 			if fc := isField(s); fc != "" {
 				bad = fc
 				break
 			}
-			stack = append(stack, s)
+			stack = append(stack, state{s, b})
 		}
 	}
 	// and the guarded calls must exist at all
